@@ -4,47 +4,41 @@ import (
 	"encoding/json"
 	"fmt"
 	"os"
-	"runtime"
 	"runtime/debug"
 	"strconv"
 	"testing"
 	"time"
 
-	"github.com/cockroachdb/pebble/verifharness/dbm"
 	"github.com/cockroachdb/pebble/vfs/errorfs"
 	"pgregory.net/rapid"
 )
 
-// TestDbg is a development aid: FAULT_DBG=n runs n example plans and prints
-// one line per plan.
+// Development aids (skipped unless their environment variable is set); they are
+// not part of the check.
+
+// TestDbg: FAULT_DBG=n [FAULT_DBG_FROM=i] executes n example plans, one line each.
 func TestDbg(t *testing.T) {
 	n, _ := strconv.Atoi(os.Getenv("FAULT_DBG"))
 	if n == 0 {
 		t.Skip()
 	}
 	from, _ := strconv.Atoi(os.Getenv("FAULT_DBG_FROM"))
-	watchdog = 5 * time.Second
 	g := rapid.Custom(genPlan)
 	for i := from; i < from+n; i++ {
 		p := g.Example(i)
 		t0 := time.Now()
 		out, err := exec(p)
-		d := time.Since(t0)
-		fmt.Printf("%d %.3fs nt=%v goroutines=%d %v\n", i, d.Seconds(), out.NonTrivial, runtime.NumGoroutine(), out.Labels)
-		if err != nil || d > 3*time.Second {
+		fmt.Printf("%d %.3fs nt=%v excluded=%q %v\n", i, time.Since(t0).Seconds(), out.NonTrivial, out.Excluded, out.Labels)
+		if err != nil {
 			js, _ := json.Marshal(p)
-			os.WriteFile(fmt.Sprintf("/var/tmp/mut/fault/dbg-%d.json", i), js, 0o644)
-			fmt.Printf("   ERR: %v\n", err)
-			if os.Getenv("FAULT_DBG_STACKS") != "" && d > 3*time.Second {
-				buf := make([]byte, 1<<22)
-				buf = buf[:runtime.Stack(buf, true)]
-				os.WriteFile(fmt.Sprintf("/var/tmp/mut/fault/stacks-%d.txt", i), buf, 0o644)
-			}
+			fmt.Printf("   ERR: %v\n   PLAN: %s\n", err, js)
 		}
 	}
 }
 
-// TestDbgReplay: FAULT_REPLAY=file [FAULT_REPEAT=n] executes one plan.
+// TestDbgReplay: FAULT_REPLAY=file [FAULT_REPEAT=n] [FAULT_STACK=1] executes one
+// plan n times and prints the first failure (with the stack of every goroutine
+// that was hit by a fault if FAULT_STACK is set).
 func TestDbgReplay(t *testing.T) {
 	f := os.Getenv("FAULT_REPLAY")
 	if f == "" {
@@ -65,6 +59,7 @@ func TestDbgReplay(t *testing.T) {
 		debugFire = func(op errorfs.Op) {
 			stacks = append(stacks, fmt.Sprintf("%v %s\n%s", op.Kind, op.Path, debug.Stack()))
 		}
+		defer func() { debugFire = nil }()
 	}
 	for i := 0; i < max(n, 1); i++ {
 		stacks = nil
@@ -77,46 +72,14 @@ func TestDbgReplay(t *testing.T) {
 					fmt.Println(s)
 				}
 			}
+		} else if i == 0 {
+			fmt.Printf("%v excluded=%q\n", out.Labels, out.Excluded)
 		}
 	}
 	fmt.Printf("failures: %d of %d\n", fails, max(n, 1))
 }
 
-func TestDbgFinding(t *testing.T) {
-	if os.Getenv("FAULT_FINDING") == "" {
-		t.Skip()
-	}
-	b, _ := os.ReadFile("/var/tmp/mut/fault/dbg-126.json")
-	var p Plan
-	json.Unmarshal(b, &p)
-	p.Opt.DisableAutoCompaction = true
-	for n := 1; n <= 14; n++ {
-		p.Rules = []Rule{{Kinds: []string{"read"}, Classes: []string{"sst"}, From: 4, Nth: n}}
-		p.Opt.CacheSize = 1 << 10
-		p.Steps = []Step{
-			{K: "write", Ops: []dbm.Op{{K: "set", A: "a@1", V: "v1"}, {K: "set", A: "c", V: "v2"}, {K: "rkset", A: "aa", B: "bb", S: 2, V: "r1"}, {K: "set", A: "e@5", V: "v3"}}, Sync: true},
-			{K: "flush"},
-			{K: "write", Ops: []dbm.Op{{K: "set", A: "a@2", V: "v4"}, {K: "set", A: "d", V: "v5"}, {K: "rkset", A: "b", B: "c", S: 3, V: "r2"}}, Sync: true},
-			{K: "flush"},
-			{K: "compact", A: "a", B: "z"},
-			{K: "faultsoff"},
-		}
-		p.End = EndPlan{Surv: []int{0}}
-		fails := 0
-		var first string
-		var labels []string
-		for i := 0; i < 5; i++ {
-			out, err := exec(p)
-			labels = out.Labels
-			if err != nil {
-				fails++
-				first = err.Error()
-			}
-		}
-		fmt.Printf("nth=%d fails=%d/5 %v\n    %s\n", n, fails, labels, first)
-	}
-}
-
+// TestDbgKnown: FAULT_KNOWN=1 executes every known-finding demonstration 20 times.
 func TestDbgKnown(t *testing.T) {
 	if os.Getenv("FAULT_KNOWN") == "" {
 		t.Skip()
@@ -134,37 +97,6 @@ func TestDbgKnown(t *testing.T) {
 		p := k.Plan
 		p.NoExclude = false
 		out, err := exec(p)
-		fmt.Printf("with exclusion: excluded=%q labels=%v err=%v\n", out.Excluded, out.Labels, err)
-	}
-}
-
-func TestDbgFinding2(t *testing.T) {
-	if os.Getenv("FAULT_FINDING2") == "" {
-		t.Skip()
-	}
-	p := knownPlans()[0].Plan
-	p.Opt.ValueBlocks = true
-	for n := 1; n <= 16; n++ {
-		p.Rules = []Rule{{Kinds: []string{"read"}, Classes: []string{"sst"}, From: 4, Nth: n}}
-		p.Steps = []Step{
-			{K: "write", Ops: []dbm.Op{{K: "set", A: "b@4", V: "v1"}, {K: "set", A: "b@3", V: "v2"}}, Sync: true},
-			{K: "flush"},
-			{K: "write", Ops: []dbm.Op{{K: "set", A: "a", V: "v3"}, {K: "set", A: "b@4", V: "v4"}}, Sync: true},
-			{K: "flush"},
-			{K: "compact", A: "a", B: "z"},
-			{K: "faultsoff"},
-		}
-		fails := 0
-		var first string
-		var labels []string
-		for i := 0; i < 5; i++ {
-			out, err := exec(p)
-			labels = out.Labels
-			if err != nil {
-				fails++
-				first = err.Error()
-			}
-		}
-		fmt.Printf("nth=%d fails=%d/5 %v\n    %s\n", n, fails, labels, first)
+		fmt.Printf("   with NoExclude=false: excluded=%q labels=%v err=%v\n", out.Excluded, out.Labels, err)
 	}
 }
